@@ -444,6 +444,62 @@ pub fn parse_meta(src: &str) -> Meta {
     m
 }
 
+/// Operands derived from the constants of the emitted code: a range check on `x - lower` or
+/// `x + (2^128 - upper)` excludes exactly the values next to / one range-check period away from those
+/// constants, so for every immediate k of the CASM (as a signed and as an unsigned number) the values
+/// +-k, +-k +- 1, +-k +- 2^128, 2^128 - k, and P - small are offered to every parameter.
+pub fn operands_from_code(casm: &cairo_lang_sierra_to_casm::compiler::CairoProgram) -> Vec<BigInt> {
+    use cairo_lang_casm::hints::{CoreHint, CoreHintBase, Hint};
+    use cairo_lang_casm::instructions::InstructionBody;
+    use cairo_lang_casm::operand::{DerefOrImmediate, ResOperand};
+    let p = vcommon::stark_prime();
+    let mut ks: Vec<BigInt> = vec![];
+    let mut res = |r: &ResOperand, ks: &mut Vec<BigInt>| match r {
+        ResOperand::Immediate(v) => ks.push(v.value.clone()),
+        ResOperand::BinOp(b) => {
+            if let DerefOrImmediate::Immediate(v) = &b.b {
+                ks.push(v.value.clone())
+            }
+        }
+        _ => {}
+    };
+    for i in &casm.instructions {
+        if let InstructionBody::AssertEq(a) = &i.body {
+            res(&a.b, &mut ks);
+        }
+        for h in &i.hints {
+            if let Hint::Core(CoreHintBase::Core(CoreHint::TestLessThan { lhs, rhs, .. }))
+            | Hint::Core(CoreHintBase::Core(CoreHint::TestLessThanOrEqual { lhs, rhs, .. })) = h
+            {
+                res(lhs, &mut ks);
+                res(rhs, &mut ks);
+            }
+        }
+    }
+    let b128 = pow2(128);
+    let mut out: Vec<BigInt> = vec![];
+    for k in ks {
+        let k = ((&k % &p) + &p) % &p;
+        // signed reading of the immediate
+        for c in [k.clone(), &k - &p] {
+            if c.bits() > 200 {
+                continue;
+            }
+            for base in [c.clone(), -&c, &b128 - &c, &c - &b128, &c + &b128, -&c + &b128, -&c - &b128] {
+                for d in [-1i32, 0, 1] {
+                    out.push(&base + d);
+                }
+            }
+        }
+    }
+    for d in 1..4 {
+        out.push(&p - d);
+    }
+    out.sort();
+    out.dedup();
+    out
+}
+
 /// Honest-run oracle for the parametric wrappers: the mathematically expected result felts.
 pub fn expected_from_spec(spec: &(String, Vec<BigInt>), a: &[BigInt]) -> Option<Vec<BigInt>> {
     let p = vcommon::stark_prime();
@@ -470,6 +526,15 @@ pub fn expected_from_spec(spec: &(String, Vec<BigInt>), a: &[BigInt]) -> Option<
         }
         "is_zero" => {
             if a[0] == z { vec![z.clone(), z.clone()] } else { vec![one.clone(), f(&a[0])] }
+        }
+        "felt_downcast" => {
+            // the felt a denotes a value of [lo, hi] iff a or a - P lies in it
+            let am = &a[0] - &p;
+            if (c[0] <= a[0] && a[0] <= c[1]) || (c[0] <= am && am <= c[1]) {
+                vec![z.clone(), f(&a[0])]
+            } else {
+                vec![one.clone(), z.clone()]
+            }
         }
         "ident" => vec![f(&a[0])],
         _ => return None,
